@@ -38,6 +38,12 @@ def make_market(rng, syms, d0, ndays, late=None, gaps=0.0, missing=0.0, spikes=N
             if spike_at is not None and i == spike_at:
                 row = [row[0]] + [round(x * 3.0, 4) for x in row[1:]]
                 spikes.append(row[0])
+            if spike_at is not None and spike_at + 3 <= i <= spike_at + 5 and rows and rows[-1][1] is not None:
+                # a holiday padded with the previous session's bar: a short run of identical consecutive bars
+                row = [row[0]] + list(rows[-1][1:])
+                if i == spike_at + 3:
+                    spikes.append(rows[-1][0])      # cutting the future inside the run (after its first bar) is of interest too
+                    spikes.append(row[0])
             if rng.random() < missing:
                 row[rng.choice([1, 2, 3])] = None
             rows.append(row)
@@ -77,6 +83,9 @@ def gen_case(rng, family='any'):
         start_tod = rng.choice([0, OPEN])
     start = day_of(d0) * 86400 + start_tod
     end = (day_of(d0) + nd) * 86400 + 86340
+    if rng.random() < 0.15:
+        # an end that is not 23:59 (still not earlier in the day than the start)
+        end = (day_of(d0) + nd) * 86400 + rng.choice([t_ for t_ in (CLOSE, OPEN, 0, 80000) if t_ >= start_tod] or [86340])
     late = None
     gaps = rng.choice([0, 0, 0, 0.1])
     missing = rng.choice([0, 0, 0, 0.05])
@@ -181,7 +190,7 @@ def gen_case(rng, family='any'):
             p0 = rows[min(len(rows) - 1, 10)][1]
             wb = min(0.9, rng.choice([1.01, 1.03, 1.1]) * p0 / ((1.0 - case['param']) * case['cash']))
             case['alpha'] = {'fixed': [[a_a, 1.0 - wb], [a_b, wb]]}
-    if reb != 'buy_and_hold' and rng.random() < 0.08:
+    if reb != 'buy_and_hold' and end % 86400 > start % 86400 and rng.random() < 0.08:
         case['start_us'] = rng.choice([1, 250000, 999999])      # a start carrying microseconds: the session is that of the whole second
     if spikes:
         case['spike_days'] = sorted(set(day_of(dtm.date.fromisoformat(x)) for x in spikes))
